@@ -265,6 +265,10 @@ func (p *notifier) Run() error {
 	// do outside of main loop to prevent long running read
 	for _, event := range readyToRetry {
 		if err := p.notifyNow(event); err != nil {
+			if errors.As(err, new(EventFatal)) {
+				// the receiver reported a fatal error: the event is marked as failed and must not be retried (like in Notify)
+				continue
+			}
 			if event.Retries < maxRetries {
 				failedAtStartup = append(failedAtStartup, event)
 			}
